@@ -76,6 +76,7 @@ type story struct {
 	extras  []extra  // other RRsets to splice into the answer section of the next run
 	alive   bool     // a process exists (the last run completed, no restart since)
 	timed   []string // time-bounded RRSIGs (ts= entries) for the next run
+	ttl     uint32   // TTL the root serves its DNSKEY RRset with (0 = 3600, the TTL of the configured records)
 }
 
 // window returns "<notBefore>/<notAfter>" (seconds relative to now): inside the window, expired
@@ -204,6 +205,9 @@ func (st *story) run(set, signers []kref, bad []string, faults, crash string) {
 	if len(st.timed) > 0 {
 		line += " ts=" + strings.Join(st.timed, ",")
 		st.timed = nil
+	}
+	if st.ttl != 0 {
+		line += fmt.Sprintf(" ttl=%d", st.ttl)
 	}
 	st.alive = crash == "-"
 	st.emit(line)
@@ -359,6 +363,9 @@ func (st *story) honest(faultP, crashP int) {
 	}
 	if r.Chance(1, 9) {
 		st.extras = st.rideAlong(signers)
+	}
+	if r.Chance(1, 25) {
+		st.ttl = vlib.Pick(r, []uint32{0, 60, 86400, 172800, 518400}) // the root changes its DNSKEY TTL
 	}
 	if r.Chance(1, 6) && len(signers) > 0 {
 		// the same signers, but their RRSIGs carry explicit validity windows: all inside (a
@@ -642,6 +649,11 @@ func (st *story) start(cfg []kref) {
 
 func newStory(r *vlib.R, emit func(string)) *story {
 	st := &story{r: r, emit: emit, pendAt: map[int]int64{}, revoked: map[int]bool{}}
+	// one case in three: the root serves another TTL than the records were configured with,
+	// and (see honest) changes it now and then
+	if r.Chance(1, 3) {
+		st.ttl = vlib.Pick(r, []uint32{60, 86400, 172800, 518400})
+	}
 	base := r.Intn(60) * 8
 	for i := 0; i < 8; i++ {
 		st.mats = append(st.mats, base+i)
